@@ -561,11 +561,15 @@ def o12(h, st):
     h.done()
 
 
+from tverif.engine import repeatable
+repeatable((PS, "post_select"), (PS, "strip_post_selection"), (PS, "split_frequency_dict"), (PS, "split_frequency_dict_for_last_n_digits"), (QG, "map_measurements_qwc"),
+           (QG, "check_bases_commute_qwc"))
+
 PROPERTY = {
     "level": "proof",
     "explanation": "Conservation laws of Histogram / post-selection / splitting / one-term expectation values are proved for every value of the "
                    "counts (symbolic reals, exact normal forms / z3) on every histogram shape up to the bound; the grouping partition of "
-                   "openfermion's heuristic and the sampler are outside the verifier's reach and are covered by labelled bounded runs.",
+                   "openfermion's heuristic and the sampler are outside the verifier's reach and are covered by labelled bounded runs. Histories of reads and in-place operations on ONE Histogram object are proved step by step for every value of the counts (O12).",
     "bounds": {"quick": "bitstrings of length <= 3 (all 2^n keys present), every index subset / expected-outcome dictionary on <= 2 positions",
                "thorough": "length <= 4"},
     "assumptions": ["floats as reals", "collections.Counter addition and bitarray executed natively on symbolic values through operator overloading",
